@@ -1,3 +1,177 @@
-import Cppcheck.Model.PPMacro
+import Cppcheck.Proofs.PPCond
+import Cppcheck.Proofs.PPMacro
+/-
+C11 — property theorems (preprocessing matches a conforming preprocessor), part 1: the `#if` evaluator.
+
+Model under the theorems (Cppcheck/Model/PPCond.lean): `evalIf` = the loop of simplecpp::preprocess that replaces
+`defined X` / `defined ( X )`, followed by `evaluate` (simplifyName, simplifyNumbers, TokenList::constFold with its passes), a
+copy of externals/simplecpp/simplecpp.cpp on token spellings.  Specification: `value` (C17 6.10.1p4 / 6.6 / 6.5 on intmax_t and
+uintmax_t, short circuit, `defined`, remaining identifiers 0) on expression trees `E`; `print` = tokens with the minimal
+parentheses of the C grammar, `printPF` = every binary / conditional operand parenthesised.
+
+The full-strength statement  "for every tree with a value, simplecpp evaluates its printed form to that value"  is FALSE of the
+code; each `ifeval_counterexample_*` below is a proved witness (replayed on the real simplecpp and on gcc by the check, recorded
+as known findings F11a–F11g).  What holds is `ifeval_eq_spec_paren`.
+-/
 namespace Cppcheck.PPCond
+
+instance : DecidableEq (Except Err Int)
+  | .ok a, .ok b => if h : a = b then isTrue (by rw [h]) else isFalse (by intro e; injection e with e; exact h e)
+  | .error a, .error b => if h : a = b then isTrue (by rw [h]) else isFalse (by intro e; injection e with e; exact h e)
+  | .ok _, .error _ => isFalse (by intro e; cases e)
+  | .error _, .ok _ => isFalse (by intro e; cases e)
+
+/-- no macro is defined -/
+def noDef : Tok → Bool := fun _ => false
+
+def L (n : Nat) : E := .lit ⟨10, n, false, 0⟩
+
+/-- The full-strength statement (for the record; refuted below). -/
+def IfEvalEqSpec : Prop :=
+  ∀ (e : E) (v : Val), value noDef e = some v → evalIf noDef (print e) = .ok v.v ∨ (v.v ≠ 0 ∧ ∃ w, w ≠ 0 ∧ evalIf noDef (print e) = .ok w)
+
+/-- **Main theorem (partial).**  For every expression tree — arbitrary depth — whose literals are decimal, unsuffixed and
+representable in intmax_t (`plainLits`), whose unary operators are applied to literals / `defined` / identifiers or to
+parenthesised compound expressions and whose unary minus operands are positive (`unaryOk`), whose identifiers are identifiers
+(`wfNames`) and whose strict evaluation (every operand evaluated, every intermediate result representable) is defined with
+result `v`: simplecpp evaluates the fully parenthesised spelling to `v`, and `v` is the value C17 6.10.1 gives the tree. -/
+theorem ifeval_eq_spec_paren (isDef : Tok → Bool) (e : E) (v : Int)
+    (hw : wfNames e = true) (hl : plainLits e = true) (hu : unaryOk isDef e = true) (hv : valueStrict isDef e = some v) :
+    evalIf isDef (printPF e) = .ok v ∧ value isDef e = some ⟨v, false⟩ :=
+  ⟨evalIf_printPF isDef e v hw ⟨hv, hl, hu⟩, (value_of_strict isDef e v hl hv).1⟩
+
+/-- the hypotheses are satisfiable by a non-trivial tree: `! defined ( A ) && ( ( 3 + 4 ) * 2 > 13 ? 1 : 0 )` -/
+example :
+    let e : E := .bin .land (.un .not (.defd "A".toList true))
+      (.cond (.bin .gt (.bin .mul (.bin .add (L 3) (L 4)) (L 2)) (L 13)) (L 1) (L 0))
+    wfNames e = true ∧ plainLits e = true ∧ unaryOk noDef e = true ∧ valueStrict noDef e = some 1 := by decide
+
+/-! ### counterexamples to the full statement (each is a known finding) -/
+
+/-- F11a: `1 || 0 && 0` is 1 in C, simplecpp folds `||` and `&&` in one left-to-right pass: 0 -/
+theorem ifeval_counterexample_or_and :
+    value noDef (.bin .lor (L 1) (.bin .land (L 0) (L 0))) = some ⟨1, false⟩ ∧
+    evalIf noDef (print (.bin .lor (L 1) (.bin .land (L 0) (L 0)))) = .ok 0 := by decide
+
+/-- F11b: `2 == 1 < 1` is `2 == (1 < 1)` = 0 in C, simplecpp: `(2 == 1) < 1` = 1 -/
+theorem ifeval_counterexample_eq_rel :
+    value noDef (.bin .eq (L 2) (.bin .lt (L 1) (L 1))) = some ⟨0, false⟩ ∧
+    evalIf noDef (print (.bin .eq (L 2) (.bin .lt (L 1) (L 1)))) = .ok 1 := by decide
+
+/-- F11c: `! ! 1` is 1, simplecpp leaves `! 0` unfolded and answers 0; `- ( 1 - 2 )` is 1, simplecpp builds the spelling `--1` -/
+theorem ifeval_counterexample_unary :
+    value noDef (.un .not (.un .not (L 1))) = some ⟨1, false⟩ ∧
+    evalIf noDef (print (.un .not (.un .not (L 1)))) = .ok 0 ∧
+    value noDef (.un .neg (.bin .sub (L 1) (L 2))) = some ⟨1, false⟩ ∧
+    evalIf noDef (print (.un .neg (.bin .sub (L 1) (L 2)))) = .ok 0 := by decide
+
+/-- F11d: `- 1 < 0u` is 0 (the comparison is made in uintmax_t), simplecpp: 1 -/
+theorem ifeval_counterexample_unsigned :
+    value noDef (.bin .lt (.un .neg (L 1)) (.lit ⟨10, 0, true, 0⟩)) = some ⟨0, false⟩ ∧
+    evalIf noDef (print (.bin .lt (.un .neg (L 1)) (.lit ⟨10, 0, true, 0⟩))) = .ok 1 := by decide
+
+/-- F11e: `! 00` is 1, simplecpp compares the spelling with "0": 0 -/
+theorem ifeval_counterexample_literal :
+    value noDef (.un .not (.lit ⟨8, 0, false, 0⟩)) = some ⟨1, false⟩ ∧
+    evalIf noDef (print (.un .not (.lit ⟨8, 0, false, 0⟩))) = .ok 0 := by decide
+
+/-- F11f: `1 ? 2 : 1 / 0` is 2 (the third operand is not evaluated), simplecpp reports a division by zero -/
+theorem ifeval_counterexample_unevaluated :
+    value noDef (.cond (L 1) (L 2) (.bin .div (L 1) (L 0))) = some ⟨2, false⟩ ∧
+    evalIf noDef (print (.cond (L 1) (L 2) (.bin .div (L 1) (L 0)))) = .error .div0 := by decide
+
+/-- F11g: `1 ? 0 : 0 ? 3 : 1` is 0, simplecpp continues with `0 ? 3 : 1` = 1 -/
+theorem ifeval_counterexample_chain :
+    value noDef (.cond (L 1) (L 0) (.cond (L 0) (L 3) (L 1))) = some ⟨0, false⟩ ∧
+    evalIf noDef (print (.cond (L 1) (L 0) (.cond (L 0) (L 3) (L 1)))) = .ok 1 := by decide
+
+/-- the full-strength statement is refuted -/
+theorem ifeval_eq_spec_counterexample : ¬ IfEvalEqSpec := by
+  intro h
+  have := h (.bin .lor (L 1) (.bin .land (L 0) (L 0))) ⟨1, false⟩ ifeval_counterexample_or_and.1
+  rw [ifeval_counterexample_or_and.2] at this
+  rcases this with h1 | ⟨_, w, hw, h2⟩
+  · exact absurd h1 (by decide)
+  · injection h2 with h2; exact hw h2.symm
+
 end Cppcheck.PPCond
+
+/-
+Part 2: macro replacement, conditional inclusion, -D / -U  (model: Cppcheck/Model/PPMacro.lean)
+-/
+namespace Cppcheck.PPMacro
+open Cppcheck.PPCond
+
+/-! ### termination of macro replacement
+
+`expand` is defined by well-founded recursion on the lexicographic measure `(free ms dis, ts.length)`:
+`free ms dis` = number of macros of the table whose replacement is not being rescanned.  Lean accepts the definition only with
+the three facts below (they are the `decreasing_by` obligations of the definition; the axiom audit of the check also covers
+`Cppcheck.PPMacro.expand` itself). -/
+
+/-- rescanning the replacement of `n` happens with `n` disabled: the first component of the measure decreases -/
+theorem expand_terminates_rescan {ms : List Macro} {dis : List Tok} {n : Tok} {m : Macro}
+    (hl : lookup ms n = some m) (hd : dis.contains n = false) : free ms (n :: dis) < free ms dis :=
+  free_lt hl hd
+
+/-- the arguments of an invocation and the tokens after it are shorter than the list that starts with the invocation -/
+theorem expand_terminates_args {l : List XTok} {args : List (List XTok)} {rest : List XTok}
+    (h : parseArgs l = some (args, rest)) : (∀ a ∈ args, a.length ≤ l.length) ∧ rest.length < l.length :=
+  parseArgs_len h
+
+/-- the measure is a well-founded order -/
+theorem expand_terminates_wf : WellFounded (Prod.Lex (fun a b : Nat => a < b) (fun a b : Nat => a < b)) :=
+  (Prod.lex ⟨_, Nat.lt_wfRel.wf⟩ ⟨_, Nat.lt_wfRel.wf⟩).wf
+
+/-- **object-like macro replacement = substitution**: for a table of object-like macros whose replacement lists contain no
+macro name and no `#` (`flatTable`), the replacement of any token list is the list with every macro name substituted by its
+replacement list (C06: a macro invocation and its expansion are the same token sequence). -/
+theorem expand_object_macro_eq_subst (q : Quirks) (ms : List Macro) (hf : flatTable ms = true) (ts : List XTok)
+    (hb : ∀ t ∈ ts, t.blue = false) : expand q ms [] ts = .ok (ts.flatMap (substTok ms)) :=
+  expand_flat q ms hf ts hb
+
+example : flatTable [⟨"N".toList, none, false, ["4".toList, "+".toList, "x".toList]⟩, ⟨"T".toList, none, false, ["int".toList]⟩] = true := by
+  decide
+
+/-! ### conditional inclusion -/
+
+/-- **the ifstates machine of simplecpp::preprocess implements the group semantics of 6.10.1**: for every tree of nested
+if-sections (any nesting depth, any number of `#elif` groups, optional `#else`), the lines the machine keeps are exactly the
+lines of the groups the standard selects. -/
+theorem included_lines_eq_spec (t : Items) : runC [] t.flat = some (t.incl true) := by
+  have := items_run t [] []
+  simpa [runC, top] using this
+
+/-- the same inside any enclosing conditional state and followed by any continuation -/
+theorem included_lines_eq_spec_nested (t : Items) (st : IfStack) (k : List CLine) :
+    runC st (t.flat ++ k) = (runC st k).map (t.incl (top st == .tru) ++ ·) :=
+  items_run t st k
+
+example : (Items.cons (.sect false (.cons (.text 0) .nil) (.elif true (.cons (.text 1) .nil) (.els (.cons (.text 2) .nil))))
+    (.cons (.text 3) .nil)).incl true = [1, 3] := by decide
+
+/-! ### -D / -U -/
+
+/-- **-D is applied**: every piece of `Settings::userDefines` (`-D`) whose name is not undefined by `-U` is a defined macro
+when the file starts (createDUI + the `dui.defines` loop), whatever the configuration adds. -/
+theorem D_applied (ud cfg : List Char) (undefs : List Tok) (ms : List Macro) (d : List Char)
+    (hok : entriesOK (duiDefines ud cfg) = true) (hd : d ∈ splitcfg ud ['1']) (hnu : undefs.contains (defName d) = false)
+    (h : initMacros (duiDefines ud cfg) undefs = .ok ms) : (lookup ms (defName d)).isSome = true :=
+  initFrom_defines undefs (duiDefines ud cfg) [] ms d hok (by simp [duiDefines, hd]) hnu h
+
+/-- **-U is applied**: a name given with `-U` is defined neither when the file starts nor after any sequence of lines
+(`#define` of such a name is ignored). -/
+theorem U_applied (q : Quirks) (defines : List (List Char)) (undefs : List Tok) (x : Tok) (hx : undefs.contains x = true)
+    (hok : entriesOK defines = true) (ms : List Macro) (h0 : initMacros defines undefs = .ok ms)
+    (lines : List (List LTok)) (st' : PState) (h : runLines q undefs ⟨ms, [], []⟩ lines = .ok st') :
+    lookup st'.macros x = none :=
+  runLines_undef q undefs x hx lines ⟨ms, [], []⟩ st' (initFrom_undef undefs x hx defines [] ms hok rfl h0) h
+
+example : entriesOK (duiDefines "A=1;B;f(x)=x".toList "C=2".toList) = true := by decide
+
+/-- without `entriesOK` the statement fails: the entry `A B=1` is looked up as `A B` in the `-U` set but defines `A` -/
+theorem U_applied_counterexample :
+    ∃ ms, initMacros ["A B=1".toList] ["A".toList] = .ok ms ∧ (lookup ms "A".toList).isSome = true := by
+  exact ⟨_, rfl, by decide⟩
+
+end Cppcheck.PPMacro
